@@ -3,9 +3,9 @@
 record the outcome in seeded/<name>/meta.json and write seeded/README.md."""
 import json, os, re, shutil, subprocess, sys, tempfile
 ROOT = os.path.dirname(os.path.dirname(os.path.abspath(__file__)))
-EXTRA = {"C01-m1": ["C07"], "C01-m2": ["C02"], "C06-m2": ["C05"], "C08-m1": ["C07"], "C02-m2": ["C10"], "C03-m2": ["C07"], "C07-m1": ["C17"], "C17-m1": ["C03"], "C12-m4": ["C17"], "C03-m4": ["C17"], "C07-m3": ["C09"], "C07-m4": ["C03", "C09"], "C05-m3": ["C18"], "C18-m3": ["C05"], "C09-m3": ["C03"], "C01-m3": ["C13"]}
+EXTRA = {"C01-m1": ["C07"], "C01-m2": ["C02"], "C06-m2": ["C05"], "C08-m1": ["C07"], "C02-m2": ["C10"], "C03-m2": ["C07"], "C07-m1": ["C17"], "C17-m1": ["C03"], "C12-m4": ["C17"], "C03-m4": ["C17"], "C07-m3": ["C09"], "C07-m4": ["C03", "C09"], "C05-m3": ["C18"], "C18-m3": ["C05"], "C09-m3": ["C03"], "C01-m3": ["C13"], "C01-m4": ["C16"]}
 NOTES = {
- "C01-m4": "not caught: falsy action results (0, False, '', [], {}) are turned into None before conditions on result() are evaluated; every generated action result is a non-empty dict ({tok, code}), so no generated condition tells them apart (stated limit of the result domain)",
+ "C01-m4": "caught by C16 (an action result that is itself a falsy value - 0, false, '', [], {} - arrives as null); C01's own action results are non-empty mappings, so none of its conditions tells them apart",
  "C12-m3": "not caught: needs a provider that relays an item's intermediate `canceling` / `pausing` status while a sibling item completes; the simulated provider reports running, pending and final statuses only (stated limit of the provider vocabulary)",
  "C12-m4": "caught by C17 (rerun of a with-items task whose failed item has a lower index than a succeeded one: the succeeded item is repeated, the failed one never runs); C12 itself never reruns",
  "C07-m1": "not caught: manifests only after an explicit rerun of a succeeded task upstream of a split followed by a fork and join; no generator requests reruns of succeeded upstream tasks",
